@@ -51,7 +51,7 @@ theorem pool_keys_flat (arr : List Batch) :
   have := pool_fold arr [] 0 (by simp)
   refine ⟨keys_range_length this.1, ?_⟩
   have h2 := this.2
-  simpa [flatten_nil] using h2
+  simpa [flatten_nil, pool] using h2
 
 /-! ## IBatchOver -/
 
@@ -108,5 +108,691 @@ theorem batchOver_aux (size : Nat) (hs : 0 < size) :
             apply ih3.2
             simp only [List.length_cons] at hi
             omega
+
+/-! ## The "fill a slice, push it when full" loops (Rebatch, DivideOn, Distribute) -/
+
+/-- result of a re-batching loop: numbered 0,1,…; the records are `data`; size discipline -/
+def Chunked (size : Nat) (out : List Batch) (data : List Rec) : Prop :=
+  out.map (·.1) = List.range out.length ∧ flatten out = data ∧ Sized size out
+
+/-- loop invariant: `out` pushed so far (all full), next number `order`, current slice `buffer` -/
+structure ChunkInv (size : Nat) (out : List Batch) (order : Nat) (buffer data : List Rec) : Prop where
+  keys : out.map (·.1) = List.range order
+  full : ∀ b ∈ out, b.2.length = size
+  room : buffer.length < size
+  flat : flatten out ++ buffer = data
+
+theorem chunkInv_init (size : Nat) (hs : 0 < size) : ChunkInv size [] 0 [] [] :=
+  ⟨by simp, by simp, by simpa using hs, by simp [flatten]⟩
+
+theorem chunkInv_push {size : Nat} {out : List Batch} {order : Nat} {buffer data : List Rec}
+    (h : ChunkInv size out order buffer data) (xs : List Rec)
+    (hx : buffer.length + xs.length = size) :
+    ChunkInv size (out ++ [(order, buffer ++ xs)]) (order + 1) [] (data ++ xs) := by
+  refine ⟨?_, ?_, ?_, ?_⟩
+  · simp [h.keys, List.range_succ]
+  · intro b hb
+    simp only [List.mem_append, List.mem_singleton] at hb
+    rcases hb with hb | hb
+    · exact h.full b hb
+    · subst hb; simp [hx]
+  · have := h.room; simp only [List.length_nil]; omega
+  · rw [flatten_append, flatten_single, ← h.flat]; simp
+
+theorem chunkInv_keep {size : Nat} {out : List Batch} {order : Nat} {buffer data : List Rec}
+    (h : ChunkInv size out order buffer data) (xs : List Rec)
+    (hx : buffer.length + xs.length < size) :
+    ChunkInv size out order (buffer ++ xs) (data ++ xs) := by
+  refine ⟨h.keys, h.full, ?_, ?_⟩
+  · simpa using hx
+  · rw [← h.flat]; simp
+
+theorem sized_of_full {size : Nat} (hs : 0 < size) {out : List Batch}
+    (h : ∀ b ∈ out, b.2.length = size) : Sized size out := by
+  constructor
+  · intro b hb; rw [h b hb]; exact ⟨hs, Nat.le_refl _⟩
+  · intro i hi; exact h _ (List.getElem_mem _)
+
+theorem sized_snoc {size : Nat} (hs : 0 < size) {out : List Batch}
+    (h : ∀ b ∈ out, b.2.length = size) (x : Batch) (hx : 0 < x.2.length ∧ x.2.length ≤ size) :
+    Sized size (out ++ [x]) := by
+  constructor
+  · intro b hb
+    simp only [List.mem_append, List.mem_singleton] at hb
+    rcases hb with hb | hb
+    · rw [h b hb]; exact ⟨hs, Nat.le_refl _⟩
+    · subst hb; exact hx
+  · intro i hi
+    simp only [List.length_append, List.length_singleton] at hi
+    have hi' : i < out.length := by omega
+    rw [List.getElem_append_left hi']
+    exact h _ (List.getElem_mem _)
+
+theorem chunkInv_finish {size : Nat} {out : List Batch} {order : Nat} {buffer data : List Rec}
+    (h : ChunkInv size out order buffer data) :
+    Chunked size (if buffer.length > 0 then out ++ [(order, buffer)] else out) data := by
+  have hs : 0 < size := by have := h.room; omega
+  split
+  · rename_i hb
+    refine ⟨?_, ?_, ?_⟩
+    · apply keys_range_length (c := order + 1)
+      simp [h.keys, List.range_succ]
+    · rw [flatten_append, flatten_single]; exact h.flat
+    · exact sized_snoc hs h.full _ ⟨hb, Nat.le_of_lt h.room⟩
+  · rename_i hb
+    have hnil : buffer = [] := by
+      cases buffer with
+      | nil => rfl
+      | cons a t => simp at hb
+    refine ⟨keys_range_length h.keys, ?_, sized_of_full hs h.full⟩
+    have := h.flat
+    rw [hnil] at this
+    simpa using this
+
+theorem rebatchFill_inv (size : Nat) :
+    ∀ (fuel : Nat) (seqs : List Rec) (order : Nat) (buffer : List Rec) (out : List Batch)
+      (data : List Rec), ChunkInv size out order buffer data → seqs.length ≤ fuel →
+      ChunkInv size (rebatchFill size fuel seqs order buffer out).1
+        (rebatchFill size fuel seqs order buffer out).2.1
+        (rebatchFill size fuel seqs order buffer out).2.2 (data ++ seqs) := by
+  intro fuel
+  induction fuel with
+  | zero =>
+    intro seqs order buffer out data h hl
+    have : seqs = [] := List.length_eq_zero_iff.mp (by omega)
+    subst this
+    simpa [rebatchFill] using h
+  | succ fuel ih =>
+    intro seqs order buffer out data h hl
+    cases seqs with
+    | nil => simpa [rebatchFill] using h
+    | cons a t =>
+      have hroom := h.room
+      rw [rebatchFill]
+      simp only [List.isEmpty_cons, Bool.false_eq_true, ↓reduceIte]
+      generalize hk : min (a :: t).length (size - buffer.length) = k
+      have hk1 : 0 < k := by simp only [List.length_cons] at hk; omega
+      have hk2 : k ≤ (a :: t).length := by omega
+      have hk3 : buffer.length + k ≤ size := by omega
+      have htake : ((a :: t).take k).length = k := by
+        rw [List.length_take]; omega
+      have hdrop : ((a :: t).drop k).length ≤ fuel := by
+        rw [List.length_drop]; simp only [List.length_cons] at hl hk2 ⊢; omega
+      have hdata : data ++ (a :: t) = (data ++ (a :: t).take k) ++ (a :: t).drop k := by
+        rw [List.append_assoc, List.take_append_drop]
+      rw [hdata]
+      split
+      · rename_i hfull
+        apply ih _ _ _ _ _ _ hdrop
+        apply chunkInv_push h
+        rw [htake]
+        simpa [htake] using hfull
+      · rename_i hfull
+        apply ih _ _ _ _ _ _ hdrop
+        apply chunkInv_keep h
+        rw [htake]
+        have : buffer.length + k ≠ size := by simpa [htake] using hfull
+        omega
+
+/-- the fold of `Rebatch` over already sorted batches -/
+theorem rebatch_fold_inv (size : Nat) (bs : List Batch) :
+    ∀ (out : List Batch) (order : Nat) (buffer data : List Rec),
+      ChunkInv size out order buffer data →
+      ChunkInv size
+        (bs.foldl (fun (st : List Batch × Nat × List Rec) (b : Batch) =>
+          rebatchFill size (b.2.length + 1) b.2 st.2.1 st.2.2 st.1) (out, order, buffer)).1
+        (bs.foldl (fun (st : List Batch × Nat × List Rec) (b : Batch) =>
+          rebatchFill size (b.2.length + 1) b.2 st.2.1 st.2.2 st.1) (out, order, buffer)).2.1
+        (bs.foldl (fun (st : List Batch × Nat × List Rec) (b : Batch) =>
+          rebatchFill size (b.2.length + 1) b.2 st.2.1 st.2.2 st.1) (out, order, buffer)).2.2
+        (data ++ flatten bs) := by
+  induction bs with
+  | nil => intro out order buffer data h; simpa [flatten] using h
+  | cons b t ih =>
+    intro out order buffer data h
+    simp only [List.foldl_cons]
+    have h1 := rebatchFill_inv size (b.2.length + 1) b.2 order buffer out data h (by omega)
+    have h2 := ih _ _ _ _ h1
+    have e : data ++ flatten (b :: t) = data ++ b.2 ++ flatten t := by
+      simp [flatten]
+    rw [e]
+    exact h2
+
+/-- `Rebatch` of a stream whose sorted form is `bs` -/
+theorem rebatch_chunked (size : Nat) (hs : 0 < size) (arr : List Batch) :
+    Chunked size (rebatch size arr) (flatten (sortBatches arr)) := by
+  have h := rebatch_fold_inv size (sortBatches arr) [] 0 [] [] (chunkInv_init size hs)
+  simp only [List.nil_append] at h
+  unfold rebatch
+  exact chunkInv_finish h
+
+/-! ## FilterEmpty -/
+
+theorem filterEmpty_fold (bs : List Batch) :
+    ∀ (out : List Batch) (c : Nat), out.map (·.1) = List.range c → (∀ b ∈ out, b.2 ≠ []) →
+      ((bs.foldl (fun (st : List Batch × Nat) (b : Batch) =>
+          if b.2.length > 0 then (st.1 ++ [(st.2, b.2)], st.2 + 1) else st) (out, c)).1.map (·.1) =
+        List.range (bs.foldl (fun (st : List Batch × Nat) (b : Batch) =>
+          if b.2.length > 0 then (st.1 ++ [(st.2, b.2)], st.2 + 1) else st) (out, c)).2) ∧
+      flatten (bs.foldl (fun (st : List Batch × Nat) (b : Batch) =>
+          if b.2.length > 0 then (st.1 ++ [(st.2, b.2)], st.2 + 1) else st) (out, c)).1 =
+        flatten out ++ flatten bs ∧
+      ∀ b ∈ (bs.foldl (fun (st : List Batch × Nat) (b : Batch) =>
+          if b.2.length > 0 then (st.1 ++ [(st.2, b.2)], st.2 + 1) else st) (out, c)).1, b.2 ≠ [] := by
+  induction bs with
+  | nil => intro out c h hne; exact ⟨by simpa using h, by simp [flatten], by simpa using hne⟩
+  | cons b t ih =>
+    intro out c h hne
+    simp only [List.foldl_cons]
+    by_cases hb : b.2.length > 0
+    · simp only [hb, ↓reduceIte]
+      have h' : (out ++ [(c, b.2)]).map (·.1) = List.range (c + 1) := by
+        simp [h, List.range_succ]
+      have hne' : ∀ x ∈ out ++ [(c, b.2)], x.2 ≠ [] := by
+        intro x hx
+        simp only [List.mem_append, List.mem_singleton] at hx
+        rcases hx with hx | hx
+        · exact hne x hx
+        · subst hx; exact List.ne_nil_of_length_pos hb
+      obtain ⟨i1, i2, i3⟩ := ih _ _ h' hne'
+      refine ⟨i1, ?_, i3⟩
+      rw [i2, flatten_append, flatten_single]
+      simp [flatten]
+    · simp only [hb, ↓reduceIte]
+      obtain ⟨i1, i2, i3⟩ := ih _ _ h hne
+      refine ⟨i1, ?_, i3⟩
+      have : b.2 = [] := by
+        cases hb2 : b.2 with
+        | nil => rfl
+        | cons a t => rw [hb2] at hb; simp at hb
+      rw [i2]
+      simp [flatten, this]
+
+theorem filterEmpty_keys_flat (arr : List Batch) :
+    (filterEmpty arr).map (·.1) = List.range (filterEmpty arr).length ∧
+    flatten (filterEmpty arr) = flatten (sortBatches arr) ∧
+    ∀ b ∈ filterEmpty arr, b.2 ≠ [] := by
+  obtain ⟨h1, h2, h3⟩ := filterEmpty_fold (sortBatches arr) [] 0 (by simp) (by simp)
+  refine ⟨keys_range_length h1, ?_, h3⟩
+  simpa [flatten_nil, filterEmpty] using h2
+
+/-! ## Distribute -/
+
+theorem distribute_fold_inv (size : Nat) (recs : List Rec) :
+    ∀ (out : List Batch) (order : Nat) (buffer data : List Rec),
+      ChunkInv size out order buffer data →
+      ChunkInv size
+        (recs.foldl (fun (st : List Batch × Nat × List Rec) (r : Rec) =>
+          let sl := st.2.2 ++ [r]
+          if sl.length = size then (st.1 ++ [(st.2.1, sl)], st.2.1 + 1, []) else (st.1, st.2.1, sl))
+          (out, order, buffer)).1
+        (recs.foldl (fun (st : List Batch × Nat × List Rec) (r : Rec) =>
+          let sl := st.2.2 ++ [r]
+          if sl.length = size then (st.1 ++ [(st.2.1, sl)], st.2.1 + 1, []) else (st.1, st.2.1, sl))
+          (out, order, buffer)).2.1
+        (recs.foldl (fun (st : List Batch × Nat × List Rec) (r : Rec) =>
+          let sl := st.2.2 ++ [r]
+          if sl.length = size then (st.1 ++ [(st.2.1, sl)], st.2.1 + 1, []) else (st.1, st.2.1, sl))
+          (out, order, buffer)).2.2
+        (data ++ recs) := by
+  induction recs with
+  | nil => intro out order buffer data h; simpa using h
+  | cons r t ih =>
+    intro out order buffer data h
+    simp only [List.foldl_cons]
+    have e : data ++ r :: t = (data ++ [r]) ++ t := by simp
+    rw [e]
+    have hroom := h.room
+    by_cases hf : (buffer ++ [r]).length = size
+    · simp only [hf, ↓reduceIte]
+      apply ih
+      exact chunkInv_push h [r] (by simpa using hf)
+    · simp only [hf, ↓reduceIte]
+      apply ih
+      apply chunkInv_keep h [r]
+      simp only [List.length_append, List.length_singleton] at hf ⊢
+      omega
+
+theorem distributeKey_chunked (cls : Rec → Nat) (size : Nat) (hs : 0 < size) (key : Nat)
+    (arr : List Batch) :
+    Chunked size (distributeKey cls size key arr)
+      ((flatten (sortBatches arr)).filter (fun r => cls r == key)) := by
+  have h := distribute_fold_inv size ((flatten (sortBatches arr)).filter (fun r => cls r == key))
+    [] 0 [] [] (chunkInv_init size hs)
+  simp only [List.nil_append] at h
+  unfold distributeKey
+  exact chunkInv_finish h
+
+/-! ## DivideOn -/
+
+structure DivInv (p : Rec → Bool) (size : Nat) (st : DivSt) (data : List Rec) : Prop where
+  t : ChunkInv size st.tOut st.tOrder st.tSlice (data.filter p)
+  f : ChunkInv size st.fOut st.fOrder st.fSlice (data.filter (fun r => !p r))
+
+theorem divideRec_inv (p : Rec → Bool) (size : Nat) (st : DivSt) (data : List Rec) (s : Rec)
+    (h : DivInv p size st data) : DivInv p size (divideRec p size st s) (data ++ [s]) := by
+  obtain ⟨tOut, fOut, tOrder, fOrder, tSlice, fSlice⟩ := st
+  obtain ⟨ht, hf⟩ := h
+  simp only at ht hf
+  have htr := ht.room
+  have hfr := hf.room
+  unfold divideRec
+  cases hp : p s
+  · have e1 : (data ++ [s]).filter p = data.filter p := by simp [List.filter_append, hp]
+    have e2 : (data ++ [s]).filter (fun r => !p r) = data.filter (fun r => !p r) ++ [s] := by
+      simp [List.filter_append, hp]
+    have hne : ¬ tSlice.length = size := by omega
+    simp only [Bool.false_eq_true, ↓reduceIte, hne]
+    by_cases hfull : (fSlice ++ [s]).length = size
+    · simp only [hfull, ↓reduceIte]
+      refine ⟨?_, ?_⟩
+      · rw [e1]; exact ht
+      · rw [e2]; exact chunkInv_push hf [s] (by simpa using hfull)
+    · simp only [hfull, ↓reduceIte]
+      refine ⟨?_, ?_⟩
+      · rw [e1]; exact ht
+      · rw [e2]; apply chunkInv_keep hf [s]
+        simp only [List.length_append, List.length_singleton] at hfull ⊢
+        omega
+  · have e1 : (data ++ [s]).filter p = data.filter p ++ [s] := by simp [List.filter_append, hp]
+    have e2 : (data ++ [s]).filter (fun r => !p r) = data.filter (fun r => !p r) := by
+      simp [List.filter_append, hp]
+    have hne : ¬ fSlice.length = size := by omega
+    simp only [↓reduceIte]
+    by_cases hfull : (tSlice ++ [s]).length = size
+    · simp only [hfull, ↓reduceIte, hne]
+      refine ⟨?_, ?_⟩
+      · rw [e1]; exact chunkInv_push ht [s] (by simpa using hfull)
+      · rw [e2]; exact hf
+    · simp only [hfull, ↓reduceIte, hne]
+      refine ⟨?_, ?_⟩
+      · rw [e1]; apply chunkInv_keep ht [s]
+        simp only [List.length_append, List.length_singleton] at hfull ⊢
+        omega
+      · rw [e2]; exact hf
+
+theorem divide_fold_inv (p : Rec → Bool) (size : Nat) (recs : List Rec) :
+    ∀ (st : DivSt) (data : List Rec), DivInv p size st data →
+      DivInv p size (recs.foldl (divideRec p size) st) (data ++ recs) := by
+  induction recs with
+  | nil => intro st data h; simpa using h
+  | cons r t ih =>
+    intro st data h
+    simp only [List.foldl_cons]
+    have e : data ++ r :: t = (data ++ [r]) ++ t := by simp
+    rw [e]
+    exact ih _ _ (divideRec_inv p size st data r h)
+
+theorem divideOn_chunked (p : Rec → Bool) (size : Nat) (hs : 0 < size) (arr : List Batch) :
+    Chunked size (divideOn p size arr).1 ((flatten (sortBatches arr)).filter p) ∧
+    Chunked size (divideOn p size arr).2 ((flatten (sortBatches arr)).filter (fun r => !p r)) := by
+  have h := divide_fold_inv p size (flatten (sortBatches arr)) ⟨[], [], 0, 0, [], []⟩ []
+    ⟨by simpa using chunkInv_init size hs, by simpa using chunkInv_init size hs⟩
+  simp only [List.nil_append] at h
+  unfold divideOn
+  exact ⟨chunkInv_finish h.t, chunkInv_finish h.f⟩
+
+/-! ## Streams given by their batch numbers and contents -/
+
+theorem flatMap_congr' {α β : Type} {l : List α} {f g : α → List β} (h : ∀ a ∈ l, f a = g a) :
+    l.flatMap f = l.flatMap g := by
+  induction l with
+  | nil => rfl
+  | cons a t ih =>
+    simp only [List.flatMap_cons]
+    rw [h a (by simp), ih (fun b hb => h b (List.mem_cons_of_mem _ hb))]
+
+theorem foldl_snoc_batch (l acc : List Batch) :
+    l.foldl (fun (l : List Batch) (b : Batch) => l ++ [b]) acc = acc ++ l := by
+  induction l generalizing acc with
+  | nil => simp
+  | cons a t ih => simp [ih]
+
+/-- `SortBatches` delivers batch 0, 1, …, n-1 whatever the arrival order -/
+theorem sortBatches_keyed (w : Nat → List Rec) (n : Nat) (ks : List Nat) (hp : ks.Perm (List.range n)) :
+    sortBatches (ks.map fun k => (k, w k)) = (List.range n).map fun k => (k, w k) := by
+  unfold sortBatches
+  have h := (run_perm (fun (l : List Batch) (b : Batch) => l ++ [b]) []
+    (fun k => ((k, w k) : Batch)) n ks hp).1
+  simp only [List.map_map] at h ⊢
+  have e : ((fun b : Batch => (b.1, b)) ∘ fun k => (k, w k)) = fun k => (k, ((k, w k) : Batch)) := rfl
+  rw [e, h, foldl_snoc_batch]; simp
+
+theorem flatten_keyed (w : Nat → List Rec) (ks : List Nat) :
+    flatten (ks.map fun k => (k, w k)) = ks.flatMap w := by
+  simp [flatten, List.flatMap_map]
+
+theorem keys_keyed (w : Nat → List Rec) (ks : List Nat) :
+    (ks.map fun k => ((k, w k) : Batch)).map (·.1) = ks := by
+  simp only [List.map_map]
+  exact List.map_id' _
+
+/-- a stream whose numbers are a permutation of `0..N-1` and whose records, in number order, are `F` -/
+def IsStream (out : List Batch) (N : Nat) (F : List Rec) : Prop :=
+  ∃ (ks : List Nat) (w : Nat → List Rec),
+    ks.Perm (List.range N) ∧ (out = ks.map fun k => (k, w k)) ∧ (List.range N).flatMap w = F
+
+theorem isStream_keyed (w : Nat → List Rec) (n : Nat) (ks : List Nat) (hp : ks.Perm (List.range n)) :
+    IsStream (ks.map fun k => (k, w k)) n ((List.range n).flatMap w) :=
+  ⟨ks, w, hp, rfl, rfl⟩
+
+theorem isStream_nil : IsStream [] 0 [] := ⟨[], fun _ => [], by simp, by simp, by simp⟩
+
+theorem IsStream.keys_perm {out : List Batch} {N : Nat} {F : List Rec} (h : IsStream out N F) :
+    (out.map (·.1)).Perm (List.range N) := by
+  obtain ⟨ks, w, hp, rfl, _⟩ := h
+  rw [keys_keyed]; exact hp
+
+theorem IsStream.sort {out : List Batch} {N : Nat} {F : List Rec} (h : IsStream out N F) :
+    (sortBatches out).map (·.1) = List.range (sortBatches out).length ∧
+    (sortBatches out).length = N ∧ flatten (sortBatches out) = F := by
+  obtain ⟨ks, w, hp, rfl, hF⟩ := h
+  rw [sortBatches_keyed w N ks hp]
+  refine ⟨?_, by simp, ?_⟩
+  · rw [keys_keyed]; simp
+  · rw [flatten_keyed]; exact hF
+
+/-- a stream pushed with numbers 0,1,2,… : any permutation of its batches is an `IsStream` -/
+theorem numbered_rep (out : List Batch) (h : out.map (·.1) = List.range out.length) :
+    ∃ w : Nat → List Rec, out = (List.range out.length).map fun k => (k, w k) := by
+  refine ⟨fun k => (out.getD k (0, [])).2, ?_⟩
+  apply List.ext_getElem (by simp)
+  intro i h1 h2
+  have hk := List.getElem_of_eq h (by simpa using h1 : i < (out.map (·.1)).length)
+  simp only [List.getElem_map, List.getElem_range] at hk
+  simp only [List.getElem_map, List.getElem_range, List.getD_eq_getElem?_getD, List.getElem?_eq_getElem h1,
+    Option.getD_some]
+  exact Prod.ext hk rfl
+
+theorem keyed_of_perm (w : Nat → List Rec) (ks : List Nat) (arr : List Batch)
+    (h : arr.Perm (ks.map fun k => (k, w k))) :
+    (arr.map (·.1)).Perm ks ∧ arr = (arr.map (·.1)).map fun k => (k, w k) := by
+  constructor
+  · have := h.map (·.1)
+    rwa [keys_keyed] at this
+  · rw [List.map_map]
+    conv => lhs; rw [← List.map_id arr]
+    apply List.map_congr_left
+    intro b hb
+    have hb' := h.mem_iff.mp hb
+    obtain ⟨k, _, hk⟩ := List.mem_map.mp hb'
+    subst hk; rfl
+
+theorem isStream_of_perm_numbered (out arr : List Batch)
+    (h : out.map (·.1) = List.range out.length) (hp : arr.Perm out) :
+    IsStream arr out.length (flatten out) := by
+  obtain ⟨w, hw⟩ := numbered_rep out h
+  generalize out.length = n at hw
+  subst hw
+  obtain ⟨h1, h2⟩ := keyed_of_perm w (List.range n) arr hp
+  exact ⟨arr.map (·.1), w, h1, h2, (flatten_keyed w _).symm⟩
+
+theorem isStream_of_perm_keyed (w : Nat → List Rec) (n : Nat) (ks : List Nat)
+    (hk : ks.Perm (List.range n)) (arr : List Batch) (hp : arr.Perm (ks.map fun k => (k, w k))) :
+    IsStream arr n ((List.range n).flatMap w) := by
+  obtain ⟨h1, h2⟩ := keyed_of_perm w ks arr hp
+  exact ⟨arr.map (·.1), w, h1.trans hk, h2, rfl⟩
+
+/-- appending a stream shifted by `N` (what `Concat` does) -/
+theorem IsStream.append {out : List Batch} {N : Nat} {F : List Rec} (h : IsStream out N F)
+    (v : Nat → List Rec) (n : Nat) (ks : List Nat) (hp : ks.Perm (List.range n)) :
+    IsStream (out ++ ks.map fun k => (k + N, v k)) (N + n) (F ++ (List.range n).flatMap v) := by
+  obtain ⟨ks0, w, hp0, rfl, hF⟩ := h
+  have hshift : (fun x => N + x) = (fun x => x + N) := by funext x; omega
+  refine ⟨ks0 ++ ks.map (fun k => k + N), fun k => if k < N then w k else v (k - N), ?_, ?_, ?_⟩
+  · rw [List.range_add, hshift]
+    exact hp0.append (hp.map _)
+  · rw [List.map_append, List.map_map]
+    congr 1
+    · apply List.map_congr_left
+      intro k hk
+      have : k < N := List.mem_range.mp (hp0.mem_iff.mp hk)
+      simp [this]
+    · apply List.map_congr_left
+      intro k _
+      have : ¬ k + N < N := by omega
+      simp [this]
+  · rw [List.range_add, List.flatMap_append, List.flatMap_map, ← hF]
+    congr 1
+    · apply flatMap_congr'
+      intro k hk
+      have : k < N := List.mem_range.mp hk
+      simp [this]
+    · apply flatMap_congr'
+      intro k _
+      have : ¬ N + k < N := by omega
+      simp [this]
+
+/-! ## Concat -/
+
+theorem concatOne_fold (N : Nat) (v : Nat → List Rec) (ks : List Nat) :
+    ∀ st : List Batch × Int,
+      ((ks.map fun k => (k, v k)).foldl (concatOne N) st).1 = st.1 ++ ks.map (fun k => (k + N, v k)) ∧
+      st.2 ≤ ((ks.map fun k => (k, v k)).foldl (concatOne N) st).2 ∧
+      (∀ k ∈ ks, ((k : Int) + N) ≤ ((ks.map fun k => (k, v k)).foldl (concatOne N) st).2) ∧
+      (((ks.map fun k => (k, v k)).foldl (concatOne N) st).2 = st.2 ∨
+        ∃ k ∈ ks, ((ks.map fun k => (k, v k)).foldl (concatOne N) st).2 = (k : Int) + N) := by
+  induction ks with
+  | nil => intro st; simp
+  | cons k t ih =>
+    intro st
+    simp only [List.map_cons, List.foldl_cons]
+    obtain ⟨i1, i2, i3, i4⟩ := ih (concatOne N st (k, v k))
+    have hc1 : (concatOne N st (k, v k)).1 = st.1 ++ [(k + N, v k)] := rfl
+    have hc2 : st.2 ≤ (concatOne N st (k, v k)).2 ∧ ((k : Int) + N) ≤ (concatOne N st (k, v k)).2 ∧
+        ((concatOne N st (k, v k)).2 = st.2 ∨ (concatOne N st (k, v k)).2 = (k : Int) + N) := by
+      simp only [concatOne]
+      split <;> omega
+    refine ⟨?_, ?_, ?_, ?_⟩
+    · rw [i1, hc1]; simp
+    · omega
+    · intro j hj
+      simp only [List.mem_cons] at hj
+      rcases hj with hj | hj
+      · subst hj; omega
+      · exact i3 j hj
+    · rcases i4 with i4 | ⟨j, hj, i4⟩
+      · rcases hc2.2.2 with h | h
+        · left; rw [i4, h]
+        · right; exact ⟨k, by simp, by rw [i4, h]⟩
+      · right; exact ⟨j, List.mem_cons_of_mem _ hj, i4⟩
+
+theorem concatOne_fold_perm (N n : Nat) (v : Nat → List Rec) (ks : List Nat)
+    (hp : ks.Perm (List.range n)) (st : List Batch × Int) (hst : st.2 = (N : Int) - 1) :
+    (ks.map fun k => (k, v k)).foldl (concatOne N) st =
+      (st.1 ++ ks.map (fun k => (k + N, v k)), (N : Int) + n - 1) := by
+  obtain ⟨h1, h2, h3, h4⟩ := concatOne_fold N v ks st
+  apply Prod.ext h1
+  show _ = (N : Int) + n - 1
+  have hub : ∀ k ∈ ks, k < n := fun k hk => List.mem_range.mp (hp.mem_iff.mp hk)
+  cases n with
+  | zero =>
+    have : ks = [] := by simpa using hp
+    subst this
+    simp at h4 ⊢
+    omega
+  | succ m =>
+    have hm : m ∈ ks := hp.mem_iff.mpr (List.mem_range.mpr (by omega))
+    have := h3 m hm
+    rcases h4 with h4 | ⟨j, hj, h4⟩
+    · omega
+    · have := hub j hj
+      omega
+
+theorem concat_fold (others : List (Nat × (Nat → List Rec) × List Nat))
+    (hps : ∀ s ∈ others, s.2.2.Perm (List.range s.1)) :
+    ∀ (out : List Batch) (m : Int) (N : Nat) (F : List Rec), m = (N : Int) - 1 → IsStream out N F →
+      IsStream
+        ((others.map fun s => s.2.2.map fun k => (k, s.2.1 k)).foldl
+          (fun (acc : (List Batch × Int) × Nat) (s : List Batch) =>
+            let st := s.foldl (concatOne acc.2) acc.1
+            (st, (st.2 + 1).toNat)) ((out, m), N)).1.1
+        (N + (others.map (·.1)).sum)
+        (F ++ others.flatMap fun s => (List.range s.1).flatMap s.2.1) := by
+  induction others with
+  | nil => intro out m N F _ h; simpa using h
+  | cons s t ih =>
+    intro out m N F hm h
+    obtain ⟨n, v, ks⟩ := s
+    have hp : ks.Perm (List.range n) := hps (n, v, ks) (by simp)
+    simp only [List.map_cons, List.foldl_cons, List.sum_cons, List.flatMap_cons]
+    rw [concatOne_fold_perm N n v ks hp (out, m) hm]
+    have e : ((N : Int) + n - 1 + 1).toNat = N + n := by omega
+    simp only [e]
+    have := ih (fun s hs => hps s (List.mem_cons_of_mem _ hs)) _ ((N : Int) + n - 1) (N + n) _
+      (by omega) (h.append v n ks hp)
+    rw [Nat.add_assoc, ← List.append_assoc] at *
+    exact this
+
+theorem concat_isStream (n0 : Nat) (v0 : Nat → List Rec) (ks0 : List Nat)
+    (hp0 : ks0.Perm (List.range n0)) (others : List (Nat × (Nat → List Rec) × List Nat))
+    (hps : ∀ s ∈ others, s.2.2.Perm (List.range s.1)) :
+    IsStream (concat (ks0.map fun k => (k, v0 k)) (others.map fun s => s.2.2.map fun k => (k, s.2.1 k)))
+      (n0 + (others.map (·.1)).sum)
+      ((List.range n0).flatMap v0 ++ others.flatMap fun s => (List.range s.1).flatMap s.2.1) := by
+  unfold concat
+  have h0 := concatOne_fold_perm 0 n0 v0 ks0 hp0 ([], -1) (by simp)
+  simp only [h0]
+  have e : ((((0 : Nat) : Int) + n0 - 1) + 1).toNat = n0 := by omega
+  simp only [e]
+  have hs := (isStream_nil.append v0 n0 ks0 hp0)
+  have := concat_fold others hps _ (((0 : Nat) : Int) + n0 - 1) n0 _ (by omega)
+    (by simpa using hs)
+  simpa using this
+
+/-! ## PairTo -/
+
+theorem flatten_cons (x : Batch) (xs : List Batch) : flatten (x :: xs) = x.2 ++ flatten xs := by
+  simp [flatten]
+
+theorem Sized.tail {size : Nat} {x : Batch} {xs : List Batch} (h : Sized size (x :: xs)) :
+    Sized size xs := by
+  constructor
+  · intro b hb; exact h.1 b (List.mem_cons_of_mem _ hb)
+  · intro i hi
+    have := h.2 (i + 1) (by simp only [List.length_cons]; omega)
+    simpa using this
+
+theorem Sized.head {size : Nat} {x : Batch} {xs : List Batch} (h : Sized size (x :: xs)) :
+    0 < x.2.length ∧ x.2.length ≤ size := h.1 x (by simp)
+
+theorem Sized.head_full {size : Nat} {x y : Batch} {xs : List Batch} (h : Sized size (x :: y :: xs)) :
+    x.2.length = size := by
+  have := h.2 0 (by simp)
+  simpa using this
+
+theorem Sized.flatten_pos {size : Nat} {x : Batch} {xs : List Batch} (h : Sized size (x :: xs)) :
+    0 < (flatten (x :: xs)).length := by
+  rw [flatten_cons, List.length_append]
+  have := h.head
+  omega
+
+theorem sized_head_eq {size : Nat} {x y : Batch} {xs ys : List Batch}
+    (hx : Sized size (x :: xs)) (hy : Sized size (y :: ys))
+    (hl : (flatten (x :: xs)).length = (flatten (y :: ys)).length) : x.2.length = y.2.length := by
+  rw [flatten_cons, flatten_cons, List.length_append, List.length_append] at hl
+  have h1 := hx.head
+  have h2 := hy.head
+  cases xs with
+  | nil =>
+    cases ys with
+    | nil => simpa [flatten] using hl
+    | cons y' ys' =>
+      have := hy.head_full
+      have := hy.tail.flatten_pos
+      simp only [flatten_nil, List.length_nil] at hl
+      omega
+  | cons x' xs' =>
+    have := hx.head_full
+    cases ys with
+    | nil =>
+      have := hx.tail.flatten_pos
+      simp only [flatten_nil, List.length_nil] at hl
+      omega
+    | cons y' ys' =>
+      have := hy.head_full
+      omega
+
+theorem sized_zip (size : Nat) :
+    ∀ (ra rb : List Batch), Sized size ra → Sized size rb →
+      (flatten ra).length = (flatten rb).length →
+      ra.length = rb.length ∧
+      (ra.zip rb).flatMap (fun xy => xy.1.2.zip xy.2.2) = (flatten ra).zip (flatten rb) := by
+  intro ra
+  induction ra with
+  | nil =>
+    intro rb _ hb hl
+    cases rb with
+    | nil => simp [flatten]
+    | cons y ys =>
+      have := hb.flatten_pos
+      simp only [flatten_nil, List.length_nil] at hl
+      omega
+  | cons x xs ih =>
+    intro rb ha hb hl
+    cases rb with
+    | nil =>
+      have := ha.flatten_pos
+      simp only [flatten_nil, List.length_nil] at hl
+      omega
+    | cons y ys =>
+      have hh := sized_head_eq ha hb hl
+      have hl' : (flatten xs).length = (flatten ys).length := by
+        rw [flatten_cons, flatten_cons, List.length_append, List.length_append] at hl
+        omega
+      obtain ⟨i1, i2⟩ := ih ys ha.tail hb.tail hl'
+      refine ⟨by simp [i1], ?_⟩
+      rw [flatten_cons, flatten_cons, List.zip_append hh, ← i2]
+      simp
+
+theorem pair_chunked (size : Nat) (ra rb : List Batch) (A B : List Rec)
+    (ha : Chunked size ra A) (hb : Chunked size rb B) (hl : A.length = B.length) :
+    (((ra.zip rb).map fun (x, y) => (x.1, x.2.zip y.2)).map (·.1) =
+      List.range ((ra.zip rb).map fun (x, y) => (x.1, x.2.zip y.2)).length) ∧
+    ((ra.zip rb).map fun (x, y) => (x.1, x.2.zip y.2)).flatMap (·.2) = A.zip B := by
+  obtain ⟨a1, a2, a3⟩ := ha
+  obtain ⟨b1, b2, b3⟩ := hb
+  subst a2; subst b2
+  obtain ⟨h1, h2⟩ := sized_zip size ra rb a3 b3 hl
+  have ef : (fun (p : Batch × Batch) => match p with | (x, y) => (x.1, x.2.zip y.2)) =
+      fun p => (p.1.1, p.1.2.zip p.2.2) := by
+    funext p; obtain ⟨x, y⟩ := p; rfl
+  rw [ef]
+  constructor
+  · simp only [List.map_map, List.length_map, List.length_zip, ← h1, Nat.min_self]
+    rw [← a1]
+    have : ((fun (x : Nat × List (Rec × Rec)) => x.1) ∘ fun (p : Batch × Batch) => (p.1.1, p.1.2.zip p.2.2)) =
+        (fun (b : Batch) => b.1) ∘ Prod.fst := rfl
+    rw [this, ← List.map_map, List.map_fst_zip (by omega)]
+  · rw [List.flatMap_map]
+    exact h2
+
+/-! ## Stage composition: every stage maps an `IsStream` to an `IsStream` / `Chunked` -/
+
+theorem IsStream.filter {out : List Batch} {N : Nat} {F : List Rec} (h : IsStream out N F)
+    (p : Rec → Bool) : IsStream (out.map fun b => (b.1, b.2.filter p)) N (F.filter p) := by
+  obtain ⟨ks, w, hp, rfl, hF⟩ := h
+  refine ⟨ks, fun k => (w k).filter p, hp, by simp, ?_⟩
+  rw [← hF, List.filter_flatMap]
+
+theorem IsStream.worker {out : List Batch} {N : Nat} {F : List Rec} (h : IsStream out N F)
+    (f : Rec → List Rec) : IsStream (workerStage f out) N (F.flatMap f) := by
+  obtain ⟨ks, w, hp, rfl, hF⟩ := h
+  refine ⟨ks, fun k => (w k).flatMap f, hp, by simp [workerStage], ?_⟩
+  rw [← hF, List.flatMap_assoc]
+
+theorem IsStream.rebatch {arr : List Batch} {N : Nat} {F : List Rec} (h : IsStream arr N F)
+    (size : Nat) (hs : 0 < size) : Chunked size (rebatch size arr) F := by
+  have := rebatch_chunked size hs arr
+  rwa [h.sort.2.2] at this
+
+theorem IsStream.filterOn {arr : List Batch} {N : Nat} {F : List Rec} (h : IsStream arr N F)
+    (p : Rec → Bool) (size : Nat) (hs : 0 < size) : Chunked size (filterOn p size arr) (F.filter p) :=
+  (h.filter p).rebatch size hs
+
+theorem Chunked.isStream_of_perm {size : Nat} {out arr : List Batch} {F : List Rec}
+    (h : Chunked size out F) (hp : arr.Perm out) : IsStream arr out.length F := by
+  have := isStream_of_perm_numbered out arr h.1 hp
+  rwa [h.2.1] at this
 
 end ObiVerif.Iter
